@@ -23,8 +23,8 @@ import (
 //
 // What is observed (none of it reads the implementation's own lock word to decide):
 //  O1  the KV of every node is a stub that counts the transfers in progress on that node: a transfer is open on its
-//      source from RangeKeys entry until RemoveKeys exit (or until the Import of that transfer failed) and on its
-//      destination between Import entry and exit. The count never exceeds 1.
+//      source and on its destination from the source's RangeKeys entry until the source's RemoveKeys exit (or until
+//      the Import of that transfer failed). The count never exceeds 1 on any node.
 //  O2  every grant (RequestToJoin / RequestToLeave answered with success) and every release (FinishJoin/FinishLeave
 //      with release=true) passes a spy that forwards to the real node and keeps a ghost "held by change c" per node:
 //      a node never grants while the ghost says another change still holds it.
@@ -76,6 +76,7 @@ type zzC06Cast struct {
 	nodes   []*zzC06Node
 	imports int32 // number of Import calls so far (all nodes)
 	faultAt int32 // the faultAt-th Import fails (0: none)
+	probing bool  // the goroutines are done; the harness is issuing the fresh requests
 }
 
 type zzC06Node struct {
@@ -87,11 +88,16 @@ type zzC06Node struct {
 }
 
 // zzC06KV: the per-node store. Only the transfer primitives matter; the rest of chord.KV is the no-op zzStub.
+// A transfer is open on its source AND on its destination from the source's RangeKeys until the source's RemoveKeys
+// (or until its Import failed). The destination of RangeKeys(low, high) is the cast member whose id is high (the
+// joiner); the destination of RangeKeys(0, 0) (a leave) is the member the scenario wired as this node's successor.
 type zzC06KV struct {
 	zzStub
-	idx  byte
-	open int32 // ghost (O1): transfers in progress on this node
-	cast *zzC06Cast
+	idx     byte
+	open    int32 // ghost (O1): transfers in progress that involve this node
+	cast    *zzC06Cast
+	leaveTo *zzC06KV // the store of this node's successor (nil: not a cast member)
+	dst     *zzC06KV // destination of the transfer currently open with this node as source
 }
 
 func (k *zzC06KV) begin() {
@@ -100,26 +106,50 @@ func (k *zzC06KV) begin() {
 }
 func (k *zzC06KV) end() { atomic.AddInt32(&k.open, -1) }
 
+// finish closes the transfer whose source is k.
+func (k *zzC06KV) finish() {
+	k.end()
+	if k.dst != nil {
+		k.dst.end()
+		k.dst = nil
+	}
+}
+
 func (k *zzC06KV) RangeKeys(ctx context.Context, low, high uint64) ([][]byte, error) {
-	k.begin() // the transfer is open on its source until RemoveKeys (or a failed Import)
+	var dst *zzC06KV
+	if k.cast.probing {
+		// the fresh requests of the quiescence check come from outside the cast
+	} else if low == 0 && high == 0 {
+		dst = k.leaveTo
+	} else {
+		for _, nd := range k.cast.nodes {
+			if nd.kv != k && nd.n.ID() == high {
+				dst = nd.kv
+			}
+		}
+	}
+	k.begin()
+	k.dst = dst
+	if dst != nil {
+		dst.begin()
+	}
 	return [][]byte{{'k', k.idx}}, nil
 }
 func (k *zzC06KV) Export(ctx context.Context, keys [][]byte) ([]*protocol.KVTransfer, error) {
 	return make([]*protocol.KVTransfer, len(keys)), nil
 }
 func (k *zzC06KV) RemoveKeys(ctx context.Context, keys [][]byte) error {
-	k.end()
+	k.finish()
 	return nil
 }
 func (k *zzC06KV) Import(ctx context.Context, keys [][]byte, vals []*protocol.KVTransfer) error {
-	k.begin()
+	rt.Assert(len(keys) == 1 && len(keys[0]) == 2 && int(keys[0][1]) < len(k.cast.nodes), "import-carries-the-exported-keys")
+	src := k.cast.nodes[keys[0][1]].kv
+	rt.Assert(src.dst == k, "import-arrives-at-the-destination-of-the-open-transfer")
 	nth := atomic.AddInt32(&k.cast.imports, 1)
-	k.end()
 	if nth == k.cast.faultAt {
 		rt.Reach("import-failed")
-		if len(keys) > 0 && len(keys[0]) == 2 && int(keys[0][1]) < len(k.cast.nodes) {
-			k.cast.nodes[keys[0][1]].kv.end() // the source will not reach RemoveKeys: its transfer is over
-		}
+		src.finish() // the source will not reach RemoveKeys: its transfer is over
 		return zzC06Fault
 	}
 	return nil
@@ -261,6 +291,7 @@ func (c *zzC06Cast) quiescent() {
 		n.successorsMu.Unlock()
 	}
 	c.faultAt = 0
+	c.probing = true
 	for _, nd := range c.nodes {
 		n := nd.n
 		if n.state.Get() != chord.Active {
@@ -433,6 +464,7 @@ func ZZ_C06_LeaveVsJoin() {
 	P.next = S.n
 	S.n.predecessor = P
 	S.n.successors = []chord.VNode{c.spy(X, 1)}
+	S.kv.leaveTo = X.kv
 	X.n.predecessor = S.n
 	X.n.successors = []chord.VNode{P}
 	var err error
@@ -463,8 +495,10 @@ func ZZ_C06_AdjacentLeaves() {
 	P.next = A.n
 	A.n.predecessor = P
 	A.n.successors = []chord.VNode{c.spy(B, 1)}
+	A.kv.leaveTo = B.kv
 	B.n.predecessor = A.n
 	B.n.successors = []chord.VNode{c.spy(C, 2)}
+	B.kv.leaveTo = C.kv
 	C.n.predecessor = B.n
 	C.n.successors = []chord.VNode{P}
 	if A.n.ID() > B.n.ID() {
